@@ -103,6 +103,8 @@ impl Case {
 }
 
 const REAL_FAULTS: [&str; 5] = ["missing-directory", "path-is-directory", "parent-is-file", "name-too-long", "dev-full"];
+/// total SVG lengths produced on purpose (index = case.k)
+const EXACT_LENGTHS: [usize; 12] = [4096, 8191, 8192, 8193, 16384, 32768, 65535, 65536, 65537, 131072, 196608, 262144];
 /// destination states that are not faults: a longer file, a shorter file, a symbolic link to a longer file
 const PREEXISTING: [&str; 3] = ["existing-longer", "existing-shorter", "existing-symlink"];
 const EACCES: i32 = 13;
@@ -135,6 +137,15 @@ pub fn jobs(ctx: &Ctx) -> Vec<Case> {
                     push(f, 0, 0, 0);
                 }
                 push("existing-longer-short-writes", 0, 0, 512);
+                // exact lengths: the SVG is padded (through the image string) to exactly 2^k bytes, one less and one more,
+                // and to a multiple of 64 KiB: block-wise writers and buffer boundaries
+                if !png {
+                    for (ti, _) in EXACT_LENGTHS.iter().enumerate() {
+                        push("exact-length", 0, ti, 0);
+                    }
+                    push("exact-length-short-writes", 0, 4, 4096);
+                    push("exact-length-short-writes", 0, 7, 65536);
+                }
                 // the same process has just written another rendering (same / nearly the same / bigger / recoloured)
                 for kk in 0..4 {
                     push("after-earlier-write", 0, kk, 0);
@@ -221,7 +232,7 @@ pub fn observe(ctx: &Ctx, st: &mut Stats, c: &Case, idx: usize) {
     let exe = std::env::current_exe().expect("current_exe");
     let mut cmd = Command::new(exe);
     cmd.arg("c19-child").arg(c.to_json().to_string()).arg(&target).stdout(Stdio::piped()).stderr(Stdio::piped());
-    let injected = matches!(c.fault.as_str(), "create-fails" | "write-fails" | "short-writes" | "eintr" | "existing-longer-short-writes");
+    let injected = matches!(c.fault.as_str(), "create-fails" | "write-fails" | "short-writes" | "eintr" | "existing-longer-short-writes" | "exact-length-short-writes");
     if injected {
         let mode = match c.fault.as_str() {
             "create-fails" => "open",
@@ -304,6 +315,10 @@ pub fn observe(ctx: &Ctx, st: &mut Stats, c: &Case, idx: usize) {
                     return;
                 }
                 st.count("ok_files_compared_with_in_memory_rendering", 1);
+                if c.fault.starts_with("exact-length") {
+                    st.count("exact_length_documents_written_exactly", 1);
+                    st.reach("exact_lengths", want_len as u64);
+                }
                 if c.fault == "after-earlier-write" {
                     st.count("writes_after_an_earlier_write_in_the_same_process_exact", 1);
                 }
@@ -352,7 +367,23 @@ pub fn child_main(arg: &str, target: &str) -> i32 {
         Outcome::Ok(q) => q,
         _ => return 4,
     };
-    let spec = c.spec();
+    let mut spec = c.spec();
+    if c.fault.starts_with("exact-length") {
+        // pad the document through the image string until its length is exactly the target
+        let mut target = EXACT_LENGTHS[c.k.min(EXACT_LENGTHS.len() - 1)];
+        spec.image = Some("a".into());
+        let base = spec.svg_builder().to_str(&qr).len();
+        if base > target {
+            // a big symbol is already longer: aim at the next multiple of 64 KiB (-1, +0, +1 by case)
+            target = (base / 65536 + 1) * 65536 + c.k % 3 - 1;
+        }
+        spec.image = Some("a".repeat(1 + target - base));
+        let got = spec.svg_builder().to_str(&qr).len();
+        if got != target {
+            println!("PANIC workload: padded document has {got} bytes, wanted {target}");
+            return 0;
+        }
+    }
     if c.fault == "after-earlier-write" {
         let (cfg0, spec0) = c.earlier();
         let qr0 = match adapter::build(&cfg0) {
@@ -406,11 +437,11 @@ pub fn run(ctx: &Ctx) -> Report {
     st.sets.remove("unreached");
     let mut rep = Report::new(
         st,
-        "cases = {SVG, PNG} x versions {1,7,40} (thorough: all 40) x option sets x fault classes: none; destination already exists (6 MiB longer file, 5-byte shorter file, symbolic link to a longer file, longer file + short writes): Ok must leave exactly the rendering, no stale tail; the same process has just written another rendering to another path (identical / same symbol with one size-deciding option changed / bigger symbol / other colour); real faults: missing directory (ENOENT), path is a directory (EISDIR), parent is a regular file (ENOTDIR), over-long name (ENAMETOOLONG), /dev/full (ENOSPC at write time); injected by an LD_PRELOAD shim scoped to the case's scratch directory: create fails with EACCES/EROFS/EMFILE, first write fails with ENOSPC/EIO/EDQUOT, k-th write of a chunked stream fails (k in 2,3,5,9; 1024-byte chunks; 7-byte chunks), every write short (7 / 4096 bytes), EINTR on every other write (with and without short writes); each case runs to_file in a child process; the shim logs every interception and every fault actually DELIVERED; oracle: Ok(()) => the file's bytes equal the in-memory rendering computed in the same child; a delivered hard fault => Err(_) converted through ConvertError::from, normal exit, no panic; only benign perturbations => Ok with full content; a configured fault that was never reached is counted separately and is not a pass for the error half; distinct key = case; every case non-trivial",
+        "cases = {SVG, PNG} x versions {1,7,40} (thorough: all 40) x option sets x fault classes: none; destination already exists (6 MiB longer file, 5-byte shorter file, symbolic link to a longer file, longer file + short writes): Ok must leave exactly the rendering, no stale tail; SVG documents padded (through the image string) to exactly 4096, 8191, 8192, 8193, 16384, 32768, 65535, 65536, 65537, 131072, 196608, 262144 bytes, also under short writes; the same process has just written another rendering to another path (identical / same symbol with one size-deciding option changed / bigger symbol / other colour); real faults: missing directory (ENOENT), path is a directory (EISDIR), parent is a regular file (ENOTDIR), over-long name (ENAMETOOLONG), /dev/full (ENOSPC at write time); injected by an LD_PRELOAD shim scoped to the case's scratch directory: create fails with EACCES/EROFS/EMFILE, first write fails with ENOSPC/EIO/EDQUOT, k-th write of a chunked stream fails (k in 2,3,5,9; 1024-byte chunks; 7-byte chunks), every write short (7 / 4096 bytes), EINTR on every other write (with and without short writes); each case runs to_file in a child process; the shim logs every interception and every fault actually DELIVERED; oracle: Ok(()) => the file's bytes equal the in-memory rendering computed in the same child; a delivered hard fault => Err(_) converted through ConvertError::from, normal exit, no panic; only benign perturbations => Ok with full content; a configured fault that was never reached is counted separately and is not a pass for the error half; distinct key = case; every case non-trivial",
     );
     rep.level = "fault_enumeration";
-    rep.expected_sets = vec![("fault_classes", 15), ("fault_class_x_format", 30)];
-    rep.required_sets = vec![("fault_classes", 15), ("fault_class_x_format", 30)];
+    rep.expected_sets = vec![("fault_classes", 17), ("fault_class_x_format", 32)];
+    rep.required_sets = vec![("fault_classes", 17), ("fault_class_x_format", 32)];
     rep.min_evaluations = 100;
     rep.assumptions = vec![
         "faults are injected at the libc boundary (open*/creat/write); Rust std and tiny-skia reach the kernel through these symbols (checked by the shim's interception log)".into(),
